@@ -228,6 +228,32 @@ def main(tier, seed):
         return name, viol, st, [], []
     results += pmap(corpus, ["feature_tests", "example"])
 
+    def trait_receivers(_):
+        """directed probe (F50): every receiver a trait method can be written with (none, self, &self, &mut self); whatever the C and Kotlin
+        backends accept must expand to something rustc accepts"""
+        viol, st = [], dict.fromkeys(stats, 0)
+        for ri, recv in enumerate(["", "self, ", "&self, ", "&mut self, "]):
+            d = toolrun.fresh_dir(toolrun.workdir("c09", "trait_recv_%d" % ri))
+            src = os.path.join(d, "lib.rs")
+            open(src, "w").write("#![allow(warnings)]\n#[diplomat::bridge]\nmod ffi {\n    pub trait VfTr {\n        fn probe(%sx: u8) -> u8;\n        fn other(&self, x: u8) -> u8;\n    }\n"
+                                 "    #[diplomat::opaque]\n    pub struct VfOp(u8);\n    impl VfOp {\n        pub fn use_tr(t: impl VfTr, n: u8) -> u8 { t.other(n) }\n    }\n}\n" % recv)
+            open(os.path.join(d, "config.toml"), "w").write(tooltier.STD_CONFIG["kotlin"])
+            acc = []
+            for tb in ("c", "kotlin"):
+                rc, o, e = toolrun.run_tool(tb, src, os.path.join(d, tb), config_file=os.path.join(d, "config.toml"))
+                kind, det = toolrun.classify_tool(rc, e)
+                if kind == "ok":
+                    acc.append(tb)
+                elif kind != "lowering":
+                    viol.append((tb, "lib.rs", "trait method with receiver `%s`: tool %s: %s" % (recv.strip(", ") or "none", kind, str(det)[:200])))
+            if acc:
+                rc, o, e = toolrun.rustc_lib(src, os.path.join(d, "lib.rlib"), crate_type="rlib")
+                st["rustc"] += 1
+                if rc != 0:
+                    viol.append(("rustc", "lib.rs", "trait method with receiver `%s` is accepted by %s but its macro expansion does not type-check: %s" % (recv.strip(", ") or "none", acc, e[:600]), {"src": src}))
+        return "trait_receivers", viol, st, [], []
+    results += pmap(trait_receivers, [0])
+
     def compile_one(j):
         cmd, stat, (lang, f, prefix), viol, st, tmp = j
         rc, o, e = run(cmd, timeout=600)
